@@ -16,6 +16,9 @@ RULE = ("one history = `reset`, a constructor, then up to 30 (quick) / 60 (thoro
         "emptied, shrunk, self-assigned, converted buffer) x every second operation and save-mutate-restore; every pair of short "
         "vectors x capacity state for the six comparison operators; every buffer program of 2/3 steps; dynamic_array sizes 0..5. "
         "An op is non-trivial if it is executed (not `invalid`); distinct = distinct (op, result) pairs. "
+        "Fault injection: `failat k` / `failsize n` make the ledger allocator throw std::bad_alloc; a throwing op prints all registers, the "
+        "ledger and `sg` (registers the exception may not change are untouched); batches: every single op x 1st/2nd allocation failing, "
+        "special first step x failing op, failing op x any op, buffer ops / constructors / read_from / dynamic_array under failure. "
         "Besides the diff: API inventory (every public member of the anchored classes must be listed with the op reaching it).")
 ASSUMPTIONS = [
     "element type int (trivial); an argument `T const&` is either a value living elsewhere or a reference to an element of the same vector",
@@ -24,6 +27,8 @@ ASSUMPTIONS = [
     "growth policy is a parameter g with n <= g n cap (the driver uses the code's max(n, 2*cap); capacities are compared only as cap >= size and 'reallocated iff needed')",
     "move assignment: the standard leaves the source unspecified; the specification fixes it to the target's old contents (swap)",
     "std::istream::read(count) is good iff count characters were available",
+    "allocate either returns a fresh block or throws std::bad_alloc before any effect; in the code as it is allocate is the first effect of "
+    "every reallocating path (the model places the throw at the member's allocation request)",
     "insert(pos, first, last) with [first,last) inside the vector itself is outside std::vector's contract; it is specified (and proved) "
     "only where raw_vector's answer does not depend on the capacity (last <= pos); elsewhere model and code are compared without a specification",
 ]
